@@ -79,7 +79,7 @@ func TestVerifC05Crash(t *testing.T) {
 	if ev.Thorough() {
 		depth = 4
 	}
-	r.Rule(fmt.Sprintf("every history of length <=%d over {ADD(p), DEL(p), ADD(q), DEL(q), vanish(p);gc} through the real AllocIP/ReleaseIP/gcPods on the real pool with a real bolt-backed DiskStorage; a crash after EACH externally visible effect (cloud call effect, database commit, reply): durable state = bytes of the database file + cloud state at that moment, memory lost; every crash point is recovered with the real start-up path (NewDiskStorage -> load, filterENINotFound, NewLocal(...).Run(stored bindings) via Manager.Run) and probed: acknowledged ADDs still own the same address and have a record, acknowledged DELs have none, a fresh ADD never receives an acknowledged pod's address, pool ownership has a record", depth))
+	r.Rule(fmt.Sprintf("every history of length <=%d over {ADD(p), DEL(p), ADD(q), DEL(q), vanish(p);gc} (IPv4; dual stack one level shallower) through the real AllocIP/ReleaseIP/gcPods on the real pool with a real bolt-backed DiskStorage; a crash after EACH externally visible effect (cloud call effect, database commit, reply): durable state = bytes of the database file + cloud state at that moment, memory lost; every crash point is recovered with the real start-up path (NewDiskStorage -> load, filterENINotFound, NewLocal(...).Run(stored bindings) via Manager.Run) and probed: acknowledged ADDs still own the same address and have a record, acknowledged DELs have none, a fresh ADD never receives an acknowledged pod's address, pool ownership has a record", depth))
 	dir := t.TempDir()
 	ops := []string{"add:p", "del:p", "add:q", "del:q", "vanishgc:p"}
 	var seqs [][]string
@@ -98,12 +98,26 @@ func TestVerifC05Crash(t *testing.T) {
 	rec(nil)
 	si, sn := ev.Shard()
 	dl := ev.Deadline(150*time.Second, 40*time.Minute)
-	cfg := dwCfg{V4: true, Cap: 3, Batch: 1, Slots: 2, Pre: [][2]int{{1, 0}}, MaxIdle: 5}
 	recoveries := 0
-	for hi, seq := range seqs {
+	type job struct {
+		cfg dwCfg
+		seq []string
+	}
+	var jobs []job
+	for _, seq := range seqs {
+		jobs = append(jobs, job{dwCfg{V4: true, Cap: 3, Batch: 1, Slots: 2, Pre: [][2]int{{1, 0}}, MaxIdle: 5}, seq})
+	}
+	for _, seq := range seqs {
+		// dual stack: one level shallower (every request makes two cloud effects)
+		if len(seq) < depth {
+			jobs = append(jobs, job{dwCfg{V4: true, V6: true, Cap: 3, Batch: 1, Slots: 2, Pre: [][2]int{{1, 1}}, MaxIdle: 5}, append([]string{"dual"}, seq...)})
+		}
+	}
+	for hi, j := range jobs {
 		if hi%sn != si {
 			continue
 		}
+		cfg, seq := j.cfg, j.seq
 		if time.Now().After(dl) {
 			r.NotExhaustive()
 			break
@@ -144,6 +158,8 @@ func TestVerifC05Crash(t *testing.T) {
 			for _, o := range seq {
 				f := strings.Split(o, ":")
 				switch f[0] {
+				case "dual":
+					continue
 				case "add":
 					delete(ackedDel, f[1]) // a new ADD is in flight: its record may legitimately appear before the reply
 					rep := w.add(w.ctx, f[1], "c-"+f[1])
